@@ -76,7 +76,7 @@ def custom(run, tier):
 
 
 MANIFEST = {
-    "text": "Coq theorems: the backoff arithmetic (Flocq binary64 model of time.Duration(float64(cur)*multiplier) with the repaired clamp, tied bit-exactly to the real nextBackoffDelay through a hook differential and a source-shape guard): for every positive int64 delay and T5 and every multiplier the sleeps start at min(initial, T5), never decrease and never exceed T5 (the pre-fix function is kept as a refuted witness beyond 2^53 ns; fix 67dfa20); lifecycle safety over all runs of the shared Lifecycle LTS: an open, not-shut-down, NotConnected connection is always covered by a connect loop / a Start / a reaction / a live listener (the safety form of 'keeps dialing'), the reconnect counter grows by exactly one per successful re-dial of a counting loop, no dial after Close; the extracted monitor ok_C11 accepts every run. Tied by e2e: a cut at every byte offset of the connect/select/data/linktest exchanges in both directions and roles, timer-covered stalls (T6/T7/T8 at every inbound offset, linktest, write timeout, select reject), runs of k refused or hanging dials under five backoff configurations with dial gaps bounded below exactly by the model's sleeps, cold start, Open during retry, Close during backoff; every run requires a post-recovery round trip on a fresh peer and an exact Reconnects() count.",
-    "note": "PARTIAL on liveness: 'eventually re-establishes a Selected session' is observed in every e2e scenario, not proved (it needs fairness and a reachable peer). The backoff theorems depend on Flocq's real-number library axioms only (named in the evidence). Dial-gap upper bounds are checked with slack.",
+    "text": "Coq theorems: the backoff arithmetic (Flocq binary64 model of time.Duration(float64(cur)*multiplier) with the repaired clamp, tied bit-exactly to the real nextBackoffDelay through a hook differential and a source-shape guard): for every positive int64 delay and T5 and every multiplier the sleeps start at min(initial, T5), never decrease and never exceed T5 (the pre-fix function is kept as a refuted witness beyond 2^53 ns; fix 67dfa20); lifecycle safety over all runs of the shared Lifecycle LTS: an open, not-shut-down, NotConnected connection is always covered by a connect loop / a Start / a reaction / a live listener (the safety form of 'keeps dialing'), the reconnect counter grows by exactly one per successful re-dial of a counting loop, no dial after Close; RECOVERABILITY (C11_recovery_possible): from every reachable state with Open called and Close not, a cooperative trace (library-internal steps, dials/listens succeeding, a peer connecting, Select answered 0) of length <= 22 + queued disconnects + goroutines to join reaches a live Selected session - no reachable state is wedged; the extracted monitor ok_C11 accepts every run. Tied by e2e: a cut at every byte offset of the connect/select/data/linktest exchanges in both directions and roles, timer-covered stalls (T6/T7/T8 at every inbound offset, linktest, write timeout, select reject), runs of k refused or hanging dials under five backoff configurations with dial gaps bounded below exactly by the model's sleeps, cold start, Open during retry, Close during backoff; every run requires a post-recovery round trip on a fresh peer and an exact Reconnects() count.",
+    "note": "PARTIAL on real-time liveness only: recoverability is proved; 'eventually re-establishes a Selected session' under fair scheduling with an eventually reachable peer is observed in every e2e scenario. The backoff theorems depend on Flocq's real-number library axioms only (named in the evidence). Dial-gap upper bounds are checked with slack.",
     "technique": 'Rocq/Coq proof (Flocq binary64 model + shared lifecycle LTS invariant) + bit-exact hook differential with source-shape guard + byte-offset cut/stall e2e judged by an extracted monitor',
 }
